@@ -9,12 +9,24 @@ pub open spec fn prs(res: Seq<(TmpNodesReader, RoaringBitmap)>, i: u16) -> Seq<P
 pub open spec fn glue_one(s: TM, p: PR, root: u32, ins: Set<u32>, cap: u64, leafs: &ImmutableLeafs) -> bool {
     ins_post(s, p.tk, tn(root), empty_tv(), p.tv, Set::<u32>::empty(), p.al, ins, cap, Set::<u32>::empty(), p.lg, tn(root), leafs)
 }
-pub open spec fn glue_post(s: TM, res: Seq<PR>, roots: Seq<u32>, ins: Set<u32>, cap: u64, leafs: &ImmutableLeafs) -> bool {
+/// what insert_items_in_tree is PROVED to return (unit insert_glue): one result per root, each satisfying the per-root contract
+pub open spec fn glue_post0(s: TM, res: Seq<PR>, roots: Seq<u32>, ins: Set<u32>, cap: u64, leafs: &ImmutableLeafs) -> bool {
     &&& res.len() == roots.len()
     &&& (forall|k: int| 0 <= k < roots.len() ==> glue_one(s, #[trigger] res[k], roots[k], ins, cap, leafs))
-    // C13: ids handed to two different staging areas are different
-    &&& (forall|a: int, b: int| 0 <= a < b < res.len() ==> (#[trigger] res[a]).al.disjoint((#[trigger] res[b]).al))
 }
+/// C13: ids handed to two different staging areas are different
+pub open spec fn distinct_allocs(res: Seq<PR>) -> bool {
+    forall|a: int, b: int| 0 <= a < b < res.len() ==> (#[trigger] res[a]).al.disjoint((#[trigger] res[b]).al)
+}
+pub open spec fn glue_post(s: TM, res: Seq<PR>, roots: Seq<u32>, ins: Set<u32>, cap: u64, leafs: &ImmutableLeafs) -> bool {
+    glue_post0(s, res, roots, ins, cap, leafs) && distinct_allocs(res)
+}
+/// ASSUMED (the sequential restatement of C13, unit node_ids): staging areas filled during one call of insert_items_in_tree, whose ids all come
+/// from the one shared generator, hold pairwise different allocated ids. Rule R11 renders the parallel map as a loop; this is what the interleaving adds.
+#[verifier::external_body]
+pub proof fn axiom_distinct_staging(res: Seq<(TmpNodesReader, RoaringBitmap)>, i: u16)
+    ensures distinct_allocs(prs(res, i))
+{ }
 /// ids allocated for one root are outside the set the staging area was told to avoid
 pub proof fn lemma_glue_fresh(s: TM, p: PR, root: u32, ins: Set<u32>, cap: u64, leafs: &ImmutableLeafs)
     requires glue_one(s, p, root, ins, cap, leafs)
